@@ -51,6 +51,8 @@ func (v Value) Gnmi() *gpb.TypedValue {
 		return &gpb.TypedValue{Value: &gpb.TypedValue_DecimalVal{DecimalVal: &gpb.Decimal64{Digits: v.I, Precision: v.P}}}
 	case "f":
 		return &gpb.TypedValue{Value: &gpb.TypedValue_FloatVal{FloatVal: v.F}}
+	case "json":
+		return &gpb.TypedValue{Value: &gpb.TypedValue_JsonVal{JsonVal: []byte(v.S)}}
 	case "ls", "li", "lu", "lb":
 		arr := &gpb.ScalarArray{}
 		for _, e := range v.L {
